@@ -56,8 +56,9 @@ class Rich:
         return node, e
 
     # ------------------------------------------------------------------ type expressions
-    def texp(self, depth: int) -> tuple[dict, dict]:
-        """(schema node, expectation) of a random type expression; containers recurse while depth allows."""
+    def texp(self, depth: int, anon: bool = False) -> tuple[dict, dict]:
+        """(schema node, expectation) of a random type expression; containers recurse while depth allows.
+        anon: this expression sits inside a map value or an array item, i.e. it has no property name of its own."""
         r = self.rng
         kinds = ["prim", "prim", "enum_inline", "free_form"]
         if self.objects():
@@ -108,11 +109,18 @@ class Rich:
             self.refs.setdefault(self.cur, set()).add(t)
             self.use("ref_prim_alias")
         elif k == "array":
-            inner, ie = self.texp(depth + 1)
+            inner, ie = self.texp(depth + 1, anon=anon)     # only map values are nameless; arrays pass that on
+            needs_class = ie["kind"] not in ("string", "integer", "number", "boolean", "ref", "ref_enum", "ref_alias")
+            if anon and needs_class and "anonymous_array_items" not in self.allow:
+                # items that need a class of their own inside an array that has no name either are called
+                # AnonymousArrayItem<N> in parse order (recorded finding of C19): the clean grammar uses nameless leaves there
+                inner, ie = self.prim()
+            elif anon and needs_class:
+                self.use("anonymous_array_items")
             node, e = {"type": "array", "items": inner}, {"kind": "array", "items": ie}
             self.use(f"array_of_{ie['kind']}")
         elif k == "map":
-            inner, ie = self.texp(depth + 1)
+            inner, ie = self.texp(depth + 1, anon=True)
             node, e = {"type": "object", "additionalProperties": inner}, {"kind": "map", "values": ie}
             self.use(f"map_of_{ie['kind']}")
         else:
@@ -181,7 +189,7 @@ class Rich:
         self.sexp[name] = {"kind": "enum", "values": vals}
 
     def add_named_map(self, name: str) -> None:
-        inner, ie = self.texp(1)
+        inner, ie = self.texp(1, anon=True)
         self.schemas[name] = {"type": "object", "additionalProperties": inner}
         self.sexp[name] = {"kind": "map_alias", "values": ie}
         self.use(f"named_map_of_{ie['kind']}")
